@@ -177,16 +177,133 @@ def gen_C09(ctx):
     return out
 
 
-GENS = {"C01": gen_C01, "C02": gen_C02, "C03": gen_C03, "C04": gen_C04, "C06": gen_C06, "C10": gen_C10, "C13": gen_C13, "C08": gen_C08, "C09": gen_C09}
+def gen_C05(ctx):
+    shapes = ["S", "P"]
+    out = st_conformance(shapes)
+    out += st_faults(ctx, ctx.n(12000, 800000), shapes, "c05-faults")
+    out += st_malformed(ctx, ctx.n(5000, 400000), shapes, "c05-mal")
+    out += st_tokens(ctx, ["S"], 3 if ctx.tier == "quick" else 4, TOKENS_Q, prefix="pkg:t/")
+    out += st_tokens(ctx, ["S"], 2 if ctx.tier == "quick" else 3, TOKENS_T, prefix="pkg:")
+    out += st_token_sample(ctx, ctx.n(4000, 300000), shapes, TOKENS_T, "c05-tok")
+    out += st_pieces_random(ctx, ctx.n(2000, 100000), shapes, "c05-pieces")
+    return out
+
+
+def gen_C07(ctx):
+    shapes = ["S", "P"]
+    out = st_conformance(["S", "M", "P"])
+    out += st_pieces(ctx, ["S"])
+    out += st_pieces_random(ctx, ctx.n(6000, 500000), ["S", "M", "P"], "c07-pieces")
+    out += st_spellings(ctx, ctx.n(4000, 300000), ["S", "P"], "c07-spell", group=1)
+    out += st_malformed(ctx, ctx.n(4000, 300000), ["S", "P"], "c07-mal")
+    return out
+
+
+def gen_C11(ctx):
+    out = st_quals_exhaustive(ctx, 2 if ctx.tier == "quick" else 3)
+    out += st_quals(ctx, ctx.n(12000, 800000), "c11-quals", maxsteps=10, documented_panics=True)
+    out += st_qcmp(ctx, ctx.n(3000, 200000), "c11-qcmp")
+    return out
+
+
+def st_cksum_purl(ctx, n, label="cksum-purl"):
+    """PURLs carrying one checksum in many equivalent spellings"""
+    r = ctx.rng(label)
+    out = []
+    for _ in range(n):
+        es = rand_checksum_entries(r)
+        canon = checksum_canon(es)
+        spelled = checksum_spell(r, es)
+        val = "".join(pct(r, ch) if (ch in "&#?%+ " or not ch.isascii() or r.chance(1, 6)) else ch for ch in spelled)
+        key = flipcase(r, "checksum")
+        sh = r.pick(["S", "P", "M"])
+        ty = "t" if sh != "P" else "cargo"
+        s = "pkg:%s/n?%s=%s" % (ty, key, val)
+        if r.chance(1, 2):
+            out.append(case("parse %s %s" % (sh, hx(s)), "cksum-purl", s=s, canon=canon))
+        else:
+            tyt = hx("t") if sh != "P" else "Cargo"
+            out.append(case("build %s %s %s q:%s:%s" % (sh, tyt, hx("n"), hx(key), hx(spelled)), "cksum-purl", s=spelled, canon=canon))
+    return out
+
+
+def gen_C12(ctx):
+    out = st_cksum(ctx, ctx.n(9000, 600000), "c12-cksum")
+    out += st_cksum_orders(ctx, ctx.n(2500, 150000), "c12-orders")
+    out += st_cksum_purl(ctx, ctx.n(4000, 300000), "c12-purl")
+    out += [case("cksum text", "empty"), case("cksum rt", "empty"), case("cksum ins:%s:-;text;rt;get:%s" % (hx("a"), hx("a")), "empty")]
+    # all entry sets up to 3 from a small universe, all insertion orders
+    import itertools
+    uni_e = [("sha1", "00"), ("sha1-git", "01"), ("sha256", "0203"), ("SHA1", "aa"), ("a", "-"), ("a:b", "ff")]
+    g = 0
+    for k in range(1, 4):
+        for sub in itertools.combinations(uni_e, k):
+            g += 1
+            for perm in itertools.permutations(sub):
+                steps = ["ins:%s:%s" % (hx(a), b) for a, b in perm]
+                out.append(case("cksum " + ";".join(steps) + ";text;iter;rt", "cksum-exhaustive"))
+    return out
+
+
+def gen_C14(ctx):
+    return st_shape(ctx, ctx.n(12000, 500000), "c14-shape")
+
+
+def gen_C15(ctx):
+    out = st_ptype_exhaustive()
+    out += st_ptype_near(ctx, ctx.n(4000, 500000), "c15-near")
+    out += st_ptype_short(3 if ctx.tier == "quick" else 5)
+    return out
+
+
+def gen_C18(ctx):
+    return st_comb(ctx, ctx.n(8000, 400000), "c18-comb") + st_combp(ctx, ctx.n(6000, 300000), "c18-combp")
+
+
+def gen_C19(ctx):
+    out = st_cmp(ctx, ctx.n(9000, 600000), ["S", "M", "P"], "c19-cmp")
+    r = ctx.rng("c19-cmp3")
+    for _ in range(ctx.n(3000, 200000)):
+        vals = []
+        t = rand_tuple(r, plain=True)
+        for _ in range(3):
+            if r.chance(1, 2):
+                t = rand_tuple(r, plain=True, ty=t.ty)
+            s, _ = spell(r, t)
+            vals.append("p/" + hx(s))
+        out.append(case("cmp3 S %s %s %s" % tuple(vals), "cmp3"))
+    # all pairs of builder values over a small universe
+    import itertools
+    vals = ["", "a", "a/b", "a&b=c", "b"]
+    bs = []
+    for ns, name, q in itertools.product(vals, ["a", "b", "a/b"], vals):
+        script = ";".join(x for x in ["ns:" + hx(ns) if ns else "", "q:%s:%s" % (hx("k"), hx(q)) if q else ""] if x) or "-"
+        bs.append("b/%s/%s/%s" % (hx("t"), hx(name), script))
+    lim = 40 if ctx.tier == "quick" else len(bs)
+    for a, b in itertools.product(bs[:lim], repeat=2):
+        out.append(case("cmp S %s %s" % (a, b), "cmp-pairs"))
+    return out
+
+
+GENS = {"C01": gen_C01, "C02": gen_C02, "C03": gen_C03, "C04": gen_C04, "C06": gen_C06, "C10": gen_C10, "C13": gen_C13, "C08": gen_C08, "C09": gen_C09, "C05": gen_C05, "C07": gen_C07, "C11": gen_C11, "C12": gen_C12,
+        "C14": gen_C14, "C15": gen_C15, "C18": gen_C18, "C19": gen_C19}
 
 ORACLES = {
     "C01": [O.oracle_C01],
     "C02": [O.oracle_C02],
     "C03": [O.oracle_C03],
     "C04": [O.oracle_C04],
+    "C05": [O.oracle_C05],
     "C06": [O.oracle_C06],
+    "C07": [O.oracle_C07],
     "C08": [O.oracle_C08],
     "C09": [O.oracle_C09],
     "C10": [O.oracle_C10],
+    "C11": [O.oracle_C11],
+    "C12": [O.oracle_C12],
     "C13": [O.oracle_C13],
+    "C14": [O.oracle_C14, O.oracle_C04],
+    "C15": [O.oracle_C15],
+    "C18": [O.oracle_C18],
+    "C19": [O.oracle_C19],
 }
